@@ -133,6 +133,27 @@ CLAIMED.update({
     },
 })
 
+CLAIMED.update({
+    "C19": {
+        "text": "uni2tex is specified as a relation Explains(input, output) over annotated characters plus NFD round-trip (spec/Tex.tla, with canonical "
+                "reordering in TLA+); TLC checks the repaired transducer on all strings up to length 4 over nine character classes (and that the "
+                "pinned 'accent on the next character' variant fails), and validates the real uni2tex on every code point with a decomposition or "
+                "mark category (alone, leading, trailing), on all other code points in pass-through blocks, and on seeded mixed strings.",
+        "note": "Unicode data (category, decomposition, NFD, combining class) from Python's unicodedata is trusted; TeX typesetting is not checked.",
+        "technique": "TLA+ transducer/relational spec checked by TLC; trace validation of uni2tex call/return records",
+        "design_ref": "DESIGN.md section 8 (C19)",
+    },
+    "C20": {
+        "text": "Names.tla defines Name(i) and the shortlex successor; TLC proves Name(i+1) = Succ(Name(i)) for every i up to 10^6 (uniqueness and "
+                "enumeration order) and validates int2name(0..N) as successor chains anchored at the spec's Name(i0); colour conversions are "
+                "specified on character codes and TLC validates hex2rgb/hex2rgbstr/hex2html on all 22^3 three-digit codes, every channel value "
+                "in both cases and seeded six-digit codes.",
+        "note": "The full 16.7 M six-digit sweep is not run (channel-wise coverage).",
+        "technique": "TLA+ functional spec checked by TLC; trace validation of utils call/return records",
+        "design_ref": "DESIGN.md section 8 (C20)",
+    },
+})
+
 NOT_YET = "check not built yet in this round; planned with the TLA+ specification described in DESIGN.md section 8"
 
 
